@@ -379,6 +379,82 @@ def list_exports_are_snapshots(g):
 EXTRA_BASELINE = {}
 
 
+# arrays, dictionaries of arrays and networkx graphs the graph hands out
+ARRAY_EXPORTS = {
+    'adjacency_matrix': lambda g: g.adjacency_matrix, 'to_numpy()': lambda g: g.to_numpy(), 'to_networkx()': lambda g: g.to_networkx(),
+    'skeleton.adjacency_matrix': lambda g: g.skeleton.adjacency_matrix, 'skeleton.to_numpy()': lambda g: g.skeleton.to_numpy(),
+    'skeleton.to_networkx()': lambda g: g.skeleton.to_networkx(),
+    'adjacency_matrices': lambda g: g.adjacency_matrices, 'to_numpy_by_lag()': lambda g: g.to_numpy_by_lag(),
+}
+
+
+def _canon_any(r):
+    if isinstance(r, numpy.ndarray):
+        return ['arr', r.tolist()]
+    if isinstance(r, dict):
+        return ['dict', [[repr(k), _canon_any(v)] for k, v in sorted(r.items(), key=lambda kv: repr(kv[0]))]]
+    if isinstance(r, (list, tuple)):
+        return ['seq', [_canon_any(x) for x in r]]
+    if isinstance(r, networkx.Graph):
+        return ['nx', r.is_directed(), sorted((repr(n), json.dumps(d, sort_keys=True, default=str)) for n, d in r.nodes(data=True)),
+                sorted((repr(a), repr(b), json.dumps(d, sort_keys=True, default=str)) for a, b, d in r.edges(data=True))]
+    return repr(r)
+
+
+def _scribble(r):
+    """edit everything reachable in an exported value in place"""
+    if isinstance(r, numpy.ndarray):
+        if r.flags.writeable:
+            r[...] = 7
+    elif isinstance(r, dict):
+        for v in list(r.values()):
+            _scribble(v)
+        r['MUT'] = 1
+    elif isinstance(r, list):
+        for v in r:
+            _scribble(v)
+        r.append('MUT')
+    elif isinstance(r, tuple):
+        for v in r:
+            _scribble(v)
+    elif isinstance(r, networkx.Graph):
+        for _, d in r.nodes(data=True):
+            d['MUT'] = 1
+        for _, _, d in r.edges(data=True):
+            d['MUT'] = 1
+        r.add_edge('MUT', 'MUT2')
+
+
+def array_exports_are_snapshots(g):
+    """matrices, dictionaries of matrices, (matrix, names) pairs and networkx graphs are snapshots all the way down: writing into
+    the returned arrays / attribute dictionaries changes neither the graph nor any later export"""
+    problems = []
+    avail = {}
+    for name, f in ARRAY_EXPORTS.items():
+        try:
+            avail[name] = _canon_any(f(g))
+        except Exception:  # noqa: BLE001  (does not apply to this graph / class)
+            continue
+    for name in avail:
+        f = ARRAY_EXPORTS[name]
+        g0 = snapshot(g)
+        try:
+            _scribble(f(g))
+            changed = snapshot(g) != g0
+            later = {m: _canon_any(ARRAY_EXPORTS[m](g)) for m in avail}
+        except Exception as e:  # noqa: BLE001
+            problems.append(f'after writing into the value returned by {name} an export raised {type(e).__name__}: {e}')
+            return problems
+        if changed:
+            problems.append(f'writing into the value returned by {name} changed the graph')
+            return problems
+        for m in avail:
+            if later[m] != avail[m]:
+                problems.append(f'writing into the value returned by {name} changed a later {m}')
+                return problems
+    return problems
+
+
 def transplants_do_not_alias(pl, rng):
     """Nodes and edges handed out by one graph are given to ANOTHER graph (add_node(node=...), add_edge(Node, Node),
     add_edge(edge=...), add_edges_from with Node objects), to a graph of the same class and to a time-series graph; afterwards
@@ -454,6 +530,10 @@ def check(run, tier, seed):
                 if viol < 3:
                     viol += 1
                     run.violation(dict(operation='list export', why=why, seed=seed, iteration=it), note=why)
+            for why in array_exports_are_snapshots(gx):
+                if viol < 3:
+                    viol += 1
+                    run.violation(dict(operation='array export', why=why, seed=seed, iteration=it), note=why)
         # behavioural checks on fresh graphs (mutations are destructive)
         for name in table:
             ts2, pl2 = make_graphs(rng)
@@ -498,6 +578,7 @@ def check(run, tier, seed):
                             'every way its type allows (containers only, then nested values too) and the graph, a later result, an earlier result after later '
                             'graph changes, and sharing between distinct nodes / edges of a derived graph are checked.')
     run.samples.append(dict(operation=rows[3][0], node_edge_level=rows[3][1], graph_level=rows[3][2]))
+    run.coverage['array_and_networkx_exports_scribbled'] = sorted(ARRAY_EXPORTS)
     run.oblige(f'correspondence: measured copy discipline of {len(rows)} operations == Alias.copy_discipline ({nrows} rows)',
                not badrows and not unstable and len(rows) == nrows, f'differing rows: {badrows} unstable: {unstable}')
     for b in badrows[:2]:
@@ -518,6 +599,16 @@ def replay(run, path):
                 run.violation(dict(c, why=why), note=why)
                 print('replayed', path, 'violations', len(run.violations))
                 return 1
+        print('replayed', path, 'violations', 0)
+        return 0
+    if c.get('operation') == 'array export':
+        for it in range(40):
+            ts, pl = make_graphs(rng)
+            for gx in (ts, pl):
+                for why in array_exports_are_snapshots(gx):
+                    run.violation(dict(c, why=why), note=why)
+                    print('replayed', path, 'violations', len(run.violations))
+                    return 1
         print('replayed', path, 'violations', 0)
         return 0
     if c.get('operation') == 'list export':
